@@ -20,7 +20,8 @@ CHECK = Check(
         "OW/Spec/GR4J.lean is my transcription of Perrin, Michel & Andreassian (2003) eqs. 1-22 (S-curves with exponent "
         "5/2, UH ordinates as S-curve differences, production store with tanh, percolation (4/9)^4, 90/10 split, "
         "exchange x2(R/x3)^3.5, routing store, direct branch); the unit-hydrograph memory is carried as pending "
-        "deliveries of the convolution; tanh argument capped at 13 as in the reference implementations "
+        "deliveries, proved (spec_uh_is_convolution) to be the discrete convolution with the published ordinates; "
+        "tanh argument capped at 13 as in the reference implementations "
         "(`safeguarded`), proved equal to the equations as printed whenever |P-E| <= 13 x1",
         "theorems are over exact real arithmetic (Real.rpow, Real.tanh); floating-point round-off is covered by "
         "execution only: the KSPEC families run the specification at Float against the real Go code",
